@@ -51,9 +51,11 @@ CONSTANTS Gains,       \* set of Rat: alphabet of channel power gains
           Lens,        \* set of vector lengths
           Powers, Noises, Energies,   \* sets of Rat (all > 0)
           Dev,         \* [MuIgnoresEs, SpreadOverAll, AscendingSort, NoUnsort, StopEarly, EsDroppedInLoop,
-                       \*  AbsGainFloor : BOOLEAN]
-          Opt          \* [AllTieBreaks, DropOnTie, PermAll : BOOLEAN, GridN, ExN : Nat, ExAMax : Rat,
-                       \*  DeadGains : set of Rat (gains added by DeadChannelLaw to vectors of length <= DeadMaxLen <= 3),
+                       \*  AbsGainFloor, SortOrderCached : BOOLEAN]
+          Opt          \* [AllTieBreaks, DropOnTie, PermAll, Reuse : BOOLEAN, GridN, ExN : Nat, ExAMax : Rat,
+                       \*  DeadGains : set of Rat, DeadCount : up to that many of them are inserted by DeadChannelLaw
+                       \*  while the vector stays within length DeadMaxLen <= 4,
+                       \*  Reps : set of replication factors, RepMaxLen <= 4 (ReplicationLaw),
                        \*  Scales : set of Rat (factors k of the scaling laws), GainFloor : Rat (Dev.AbsGainFloor),
                        \*  OptAMax : Seq(Rat)]  OptAMax[n] bounds a_i = g_i Es/N0 for which `Optimal` is
                        \*  evaluated on vectors of length n (<<0,1>>: never; longer than the sequence: never)
@@ -95,8 +97,9 @@ Factor(c, i, x) == QAdd(ROne, RMul(A(c, i), x))
 RateProd(c, q) == RProdSeq([i \in Idx(c) |-> Factor(c, i, q[i])])
 RECURSIVE IntSum(_)
 IntSum(s)      == IF s = <<>> THEN 0 ELSE Head(s) + IntSum(Tail(s))
-GridAllocs(c)  == {[i \in Idx(c) |-> RNorm(c.p[1] * k[i], c.p[2] * Opt.GridN)] :
-                     k \in {kk \in [Idx(c) -> 0..Opt.GridN] : IntSum(kk) = Opt.GridN}}
+GridOf(c)      == IF N(c) >= 4 THEN 2 ELSE Opt.GridN          \* length 4: coarse grid P/2 (products of four factors)
+GridAllocs(c)  == {[i \in Idx(c) |-> RNorm(c.p[1] * k[i], c.p[2] * GridOf(c))] :
+                     k \in {kk \in [Idx(c) -> 0..GridOf(c)] : IntSum(kk) = GridOf(c)}}
 
 (* ========================== Part 2: the algorithm as a machine ============================ *)
 VARIABLES pc, inp, ord, gs, rem, lvl, ps, aux, pw, mu
@@ -147,7 +150,8 @@ Pick == /\ pc = "idle"
 \* vtChannelsSortIndexes = argsort(vtChannels)[::-1]; any order that sorts is allowed when
 \* Opt.AllTieBreaks (the property must not depend on how ties are broken)
 Sort == /\ pc = "sort"
-        /\ \E o \in (IF Opt.AllTieBreaks THEN SortOrders(inp.g) ELSE {NumpyOrder(inp.g)}) :
+        /\ \E o \in (IF Dev.SortOrderCached /\ ord # <<>> THEN {ord}
+                     ELSE IF Opt.AllTieBreaks THEN SortOrders(inp.g) ELSE {NumpyOrder(inp.g)}) :
              /\ ord' = o
              /\ gs' = [k \in Idx(inp) |-> Seen(inp.g[o[k]])]
         /\ pc' = "level"
@@ -186,7 +190,19 @@ Mu == /\ pc = "mu"
       /\ pc' = "done"
       /\ UNCHANGED <<inp, ord, gs, rem, lvl, ps, aux, pw>>
 
-Next == Pick \/ Sort \/ Level \/ DropWorst \/ Spread \/ Unsort \/ Mu
+\* The caller overwrites the SAME gains array in place (here: reverses or rotates its contents - a new channel
+\* realisation in a reused buffer) and calls doWF again.  doWF has no state of its own: everything is recomputed
+\* from the current contents.  `ord` survives in the model only as what a hidden cache could still hold; with
+\* Dev.SortOrderCached the second call sorts with that stale order.  All invariants are evaluated on the second
+\* call too.  The harness replays this as calls on one reused buffer per length.
+Rewrites(g) == {[i \in 1..Len(g) |-> g[Len(g) + 1 - i]], [i \in 1..Len(g) |-> g[(i % Len(g)) + 1]]}
+Reuse == /\ Opt.Reuse /\ pc = "done"
+         /\ \E g2 \in Rewrites(inp.g) : g2 # inp.g /\ inp' = [inp EXCEPT !.g = g2]
+         /\ pc' = "sort"
+         /\ gs' = <<>> /\ rem' = 0 /\ lvl' = RZero /\ ps' = <<>> /\ aux' = <<>> /\ pw' = <<>> /\ mu' = RZero
+         /\ UNCHANGED ord
+
+Next == Pick \/ Sort \/ Level \/ DropWorst \/ Spread \/ Unsort \/ Mu \/ Reuse
 
 \* the same steps composed as a function (used for PermutationEquivariant and RunAgrees)
 RECURSIVE DropCount(_, _, _)
@@ -254,15 +270,34 @@ ScaleLawsOptimum == Done => \A k \in Opt.Scales :
                 /\ KktOf(Scaled(inp, k, ROne, ROne, RInv(k)), pw, mu)
                 /\ KktOf(Scaled(inp, ROne, k, k, ROne), [i \in Idx(inp) |-> RMul(pw[i], k)], RMul(mu, k))
 
-\* a channel whose vessel bottom is not below the water level is irrelevant: adding it (at the front or at the
-\* end of the vector) leaves every other power and the level unchanged and gets power 0 itself.  The harness
-\* uses this law to append channels that are 20 and 300 orders of magnitude weaker than the weakest one.
-DeadChannelLaw == (Done /\ N(inp) <= Opt.DeadMaxLen) => \A d \in Opt.DeadGains :
-                    ~QLt(Bottom(inp, d), mu) =>
-                       /\ LET r == RunOf([inp EXCEPT !.g = Append(inp.g, d)])
-                          IN  r.pw = Append(pw, RZero) /\ r.mu = mu
-                       /\ LET r == RunOf([inp EXCEPT !.g = <<d>> \o inp.g])
-                          IN  r.pw = <<RZero>> \o pw /\ r.mu = mu
+\* a channel whose vessel bottom is not below the water level is irrelevant: adding such channels (one or several,
+\* equal or distinct, at the front, in the middle or at the end of the vector) leaves every other power and the
+\* level unchanged and gives them power 0.  The harness uses this law to add up to ten channels that are 20 .. 300
+\* orders of magnitude weaker than the weakest one (long drop sequences in one call).
+DeadSeqs   == UNION {[1..j -> Opt.DeadGains] : j \in 1..Opt.DeadCount}
+Inserted(q, k, x) == SubSeq(q, 1, k) \o x \o SubSeq(q, k + 1, Len(q))
+DeadChannelLaw == Done => \A ds \in DeadSeqs :
+                    (N(inp) + Len(ds) <= Opt.DeadMaxLen /\ \A j \in 1..Len(ds) : ~QLt(Bottom(inp, ds[j]), mu)) =>
+                       \A k \in 0..N(inp) :
+                          LET r == RunOf([inp EXCEPT !.g = Inserted(inp.g, k, ds)])
+                          IN  r.pw = Inserted(pw, k, [j \in 1..Len(ds) |-> RZero]) /\ r.mu = mu
+
+\* REPLICATION LAW.  Let g^m be g repeated m times (blocked: g1 g1 .. g2 g2 .., or tiled: g1 g2 .. g1 g2 ..) and
+\* the total power m P.  At the level mu of the original problem every copy of channel i takes max(0, mu - b_i),
+\* together m * SUM_i max(0, mu - b_i) = m P: the KKT conditions hold, so by uniqueness the optimum of the
+\* replicated problem is the original allocation repeated and the SAME level.  ReplicationLawOptimum states
+\* this for the declarative optimum at every length; ReplicationLaw re-runs the algorithm machine on the
+\* replicated vector where it stays within length Opt.RepMaxLen.  The harness replays every case replicated
+\* up to 67 times (length 201/268: equal gains in long vectors, introsort path of argsort, long drop runs).
+Tiled(q, m)   == [i \in 1..(Len(q) * m) |-> q[((i - 1) % Len(q)) + 1]]
+Blocked(q, m) == [i \in 1..(Len(q) * m) |-> q[((i - 1) \div m) + 1]]
+RepOf(c, q, m) == [c EXCEPT !.g = q, !.p = QMulInt(c.p, m)]
+ReplicationLawOptimum == Done => \A m \in Opt.Reps :
+                /\ KktOf(RepOf(inp, Tiled(inp.g, m), m), Tiled(pw, m), mu)
+                /\ KktOf(RepOf(inp, Blocked(inp.g, m), m), Blocked(pw, m), mu)
+ReplicationLaw == Done => \A m \in Opt.Reps : (N(inp) * m <= Opt.RepMaxLen) =>
+                /\ LET r == RunOf(RepOf(inp, Tiled(inp.g, m), m)) IN r.pw = Tiled(pw, m) /\ r.mu = mu
+                /\ LET r == RunOf(RepOf(inp, Blocked(inp.g, m), m)) IN r.pw = Blocked(pw, m) /\ r.mu = mu
 
 \* loop lemmas
 KeepsOne  == pc \in {"loop", "unsort", "mu", "done"} => rem < N(inp)
